@@ -18,6 +18,9 @@ LEVEL = "model_checking"
 STD_Q = [
     {"cb": 9, "K": 32, "full": True, "sel": 6},
     {"cb": 9, "K": 32, "full": True, "version": 2, "sel": 8},
+    {"cb": 9, "K": 32, "full": True, "sel": 8, "datafile_ext": False, "backing_fmt_ext": False},   # optional header extensions absent
+    {"cb": 10, "K": 64, "full": True, "sel": 8, "comp_level": 0, "comp_max": True},                # stored deflate: compressed size ~ cluster size
+    {"cb": 12, "K": 256, "full": False, "max_len": 1 << 20, "sel": 12, "comp_level": 0},
     {"cb": 12, "K": 256, "full": False, "max_len": 1 << 20, "sel": 8, "hlen": 112},
     {"cb": 16, "K": 4096, "full": False, "max_len": 1 << 20, "sel": 12, "host_shift": 1 << 17},       # data beyond 8 GiB
     {"cb": 16, "K": 4096, "full": False, "max_len": 1 << 20, "sel": 16, "copied": False, "l2_shift": 1 << 16, "comp_max": True},
@@ -53,7 +56,9 @@ def build(img, prof, size_bytes=None):
         return None
     vf, dvf, info = enc_qcow2.build(img, cluster_bits=cb, K=K, version=prof.get("version", 3), header_length=prof.get("hlen", 104),
                                     host_shift=prof.get("host_shift", 0), l2_shift=prof.get("l2_shift", 0),
-                                    copied=prof.get("copied", True), comp_maximal=prof.get("comp_max", False), size_bytes=size_bytes)
+                                    copied=prof.get("copied", True), comp_maximal=prof.get("comp_max", False), size_bytes=size_bytes,
+                                    comp_level=prof.get("comp_level", 6), datafile_ext=prof.get("datafile_ext", True),
+                                    backing_fmt_ext=prof.get("backing_fmt_ext", True))
     cell = info["cell"]
     backing = None
     if img["back"] >= 0:
@@ -152,7 +157,8 @@ def make_trace(tid, rng, nops=25, **opt):
     img = {"ext": ext, "datafile": datafile, "l2n": l2_real, "s": S, "l1": l1, "l2": l2, "back": back * S if back >= 0 else -1, "size": nc * S}
     vf, dvf, info = enc_qcow2.build(img, cluster_bits=cb, K=1, version=3 if (ext or datafile) else rng.choice([2, 3]),
                                     header_length=rng.choice([104, 112]), copied=rng.random() < 0.7, size_bytes=size_b,
-                                    comp_maximal=rng.random() < 0.3)
+                                    comp_maximal=rng.random() < 0.3, comp_level=rng.choice([6, 6, 0, 1]),
+                                    datafile_ext=rng.random() < 0.6, backing_fmt_ext=rng.random() < 0.7)
     blen = None
     bpad = 0
     if back >= 0:
@@ -186,9 +192,9 @@ def run(ctx):
                 "B: random real-geometry images (arbitrary 32-bit alloc/zero bitmaps) validated by TraceDisk.")
     ctx.assumptions = ["encoder harness/enc_qcow2.py follows qcow2.txt; refcounts are not maintained (the reader ignores them)",
                        "zlib only (zstd module not installed)"]
-    diskprop.tlc_check(ctx, "Qcow2", "Qcow2_big.cfg" if thorough else "Qcow2_small.cfg", need_actions=("Next",))
+    diskprop.tlc_check(ctx, "Qcow2", "Qcow2_big.cfg" if thorough else "Qcow2_q.cfg", need_actions=("Next",))
     diskprop.tlc_check(ctx, "Qcow2", "Qcow2ext_big.cfg" if thorough else "Qcow2ext_small.cfg", need_actions=("Next",))
-    sts = diskprop.dump_states(ctx, "Qcow2", "Qcow2_img4.cfg" if thorough else "Qcow2_img.cfg")
+    sts = diskprop.dump_states(ctx, "Qcow2", "Qcow2_img4.cfg" if thorough else "Qcow2_qimg.cfg")
     diskprop.replay_states(ctx, "qcow2", sts, STD_T if thorough else STD_Q, build, attrs_of=_attrs, cap=48 if thorough else 28)
     sts = diskprop.dump_states(ctx, "Qcow2", "Qcow2ext_img.cfg")
     diskprop.replay_states(ctx, "qcow2", sts, EXT_T if thorough else EXT_Q, build, attrs_of=_attrs, cap=48 if thorough else 28)
@@ -212,7 +218,7 @@ def replay(ctx, body):
     img = d["img"]
     for k in ("l1", "l2"):
         img[k] = {int(a): b for a, b in img[k].items()}
-    cfgs = ["Qcow2ext_img.cfg"] if img["ext"] else ["Qcow2_img.cfg", "Qcow2_img4.cfg"]
+    cfgs = ["Qcow2ext_img.cfg"] if img["ext"] else ["Qcow2_qimg.cfg", "Qcow2_img.cfg", "Qcow2_img4.cfg"]
     sts = []
     for c in cfgs:
         sts = [s for s in diskprop.dump_states(ctx, "Qcow2", c) if s["img"] == img]
